@@ -349,6 +349,18 @@ reg(
 )
 
 reg(
+    "C26",
+    "translation_validation",
+    "Only the identity clause, at the loader: the same generated tree supplied as JSON text (compact with raw non-ASCII, and indented with \\u escapes incl. "
+    "surrogate pairs) goes through the route yq uses for JSON input (YamlIndex::build + mark_json_sourced, then to_json_document) and must load as the tree; "
+    "C14's YAMLLOAD decides the same for its block / flow YAML renderings, so the renderings agree. Programs other than identity run in the jq evaluators, "
+    "which are not evaluated: their independence of the input syntax is not decided.",
+    [only_cfgs(_lazy("yamlload", "rule_load_json", n_quick=40), ["cli"])],
+    quick=["cli"],
+    technique="finite-domain evaluation of the loader MIR on JSON renderings of a generated tree family vs the generating tree",
+)
+
+reg(
     "C21",
     "translation_validation",
     "DSVNAV evaluates Dsv::parse_with_config, rows()/fields() iteration, row(n) and DsvRow::get(i) (every n and i, incl. out of range) from MIR on "
@@ -380,9 +392,10 @@ reg(
     "The pure rank/select helpers under the YAML position tables (AdvancePositions::{advance_rank1, ib_rank1, ib_select1_with_state, advance_select1} and the sibling "
     "copies CompactEndPositions::{advance_rank1, ib_select1_with_state}) are evaluated from MIR on structs assembled from the documented field invariants, for every bitmap of a "
     "bounded family (0-3 words of boundary patterns; longer all-ones / alternating bitmaps that cross the select sample rate) and every argument up to two past the end, against "
-    "rank/select defined by counting bits; both in-word select paths (PDEP and portable) are exercised. Sibling copies therefore agree. The sequential-cursor history "
-    "independence of get() is not decided.",
-    [only_cfgs(_lazy("ranktab", "rule_ranktab"), ["cli"])],
+    "rank/select defined by counting bits; both in-word select paths (PDEP and portable) are exercised. Sibling copies therefore agree. POSTAB evaluates the tables built by "
+    "their own constructors (OpenPositions / AdvancePositions / EndPositions) with get in ascending, descending, alternating and skipping access orders — the sequential-cursor "
+    "cache against the random path — plus cursors and find_last_open_at_text_pos, against the plain list, on lists whose text length is and is not a multiple of 64.",
+    [only_cfgs(_lazy("ranktab", "rule_ranktab"), ["cli"]), only_cfgs(_lazy("postab", "rule_positions"), ["cli"])],
     quick=["cli"],
     technique="bounded-exhaustive finite-domain evaluation of helper MIR vs bit-counting definitions (sibling agreement)",
 )
@@ -410,17 +423,19 @@ reg(
 
 reg(
     "C12",
-    "other",
-    "Structural clauses of the line index: the three line-break helpers are evaluated from MIR on every (byte, neighbour | end) window against the LF / CR / CRLF rule, and "
-    "LineIndex::build obtains break widths only through that shared rule (CLASS + REACH); within the query code every comparison between an index line start and the "
-    "query offset uses one relation (CMPCONSIST: the forward walk's `next_start <= query`), so cached and returned lines cannot disagree at a line's first byte. "
-    "Equality of the forward walk / predecessor search with the naive scan on all histories is not decided.",
+    "translation_validation",
+    "LINETAB evaluates text::lines::LineIndex from MIR: build, then to_line_column under bounded query histories (each answer checked against a naive LF/CR/CRLF scan, "
+    "so dependence on the cached previous query shows), to_offset round trip, line_start, line_count — every text up to length 4 (thorough 5) over {LF, CR, letter} with every "
+    "ordered pair of offsets, and 70-line texts in every break mix with forward jumps around the cache's walk cap (read from the crate), backward jumps, repeats and offsets "
+    "past the end. Structural clauses: the three line-break helpers on every window (CLASS), build reaches the shared rule (REACH), one comparison relation between line "
+    "starts and the query (CMPCONSIST). Histories longer than three queries are not decided.",
     [
+        only_cfgs(_lazy("linetab", "rule_lines"), ["cli"]),
         only_cfgs(_lazy("linesrules", "rule_line_break_class"), ["cli"]),
         only_cfgs(_lazy("linesrules", "rule_cmp_consistency"), ["cli"]),
     ],
     quick=["cli"],
-    technique="finite-domain evaluation of line-break helper MIR; contradiction (one-sided comparison) rule over MIR comparisons",
+    technique="finite-domain evaluation of LineIndex MIR under bounded query histories vs a naive scan; contradiction rule over MIR comparisons",
 )
 
 
@@ -456,16 +471,20 @@ reg(
 
 reg(
     "C11",
-    "other",
-    "Only the string clause: every function carrying the JSON escape-writer idiom that is reachable from the jq print routes (jq_runner, output, jq::stream, OwnedValue::to_json*) "
-    "without passing through YAML-side code is one of the four writers verified by CHARMAP, and those writers decode back under RFC 8259 section 7 on the boundary-complete "
-    "character family (REACH + CHARMAP). Value equality of the printed document, duplicate-key collapse, number spelling and sortedness are not decided.",
+    "translation_validation",
+    "JQPRINT evaluates the identity fast path from MIR: JsonIndex::build, then the CLI's lazy cursor printer jq_runner::print_json with the jq-compatible "
+    "literal formatter under compact / indent / tab / ascii-output configurations; the text read by Python's json must equal the input's value with duplicate keys "
+    "collapsed as jq does (first position, last value), numbers equal as doubles, strings identical, ASCII-only under ascii-output. Family: C06's documents plus every "
+    "object of up to 4 (thorough 5) fields over three keys, nested duplicates, keys equal only after unescaping, a 300-field object with a late duplicate. "
+    "REACH + CHARMAP: every JSON string-body writer reachable from the jq print routes is one of the four tabulated writers. The owned-value printer behind "
+    "sort-keys and the NUL/seq separators are not evaluated (indexmap is outside the facts).",
     [
+        only_cfgs(_lazy("jqprint", "rule_print"), ["cli"]),
         only_cfgs(_lazy("charmap", "rule_writer_registry"), ["cli"]),
         only_cfgs(_lazy("charmap", "rule_json_writers"), ["cli"]),
     ],
     quick=["cli"],
-    technique="who-may-escape reachability rule over the resolved call graph + finite-domain evaluation of the writers",
+    technique="finite-domain evaluation of index + printer MIR over a document family vs a conforming parser; who-may-escape reachability over the resolved call graph",
 )
 reg(
     "C15",
